@@ -105,6 +105,18 @@ func genC10(cfg Config, emit Emit) error {
 	for i, k := range []string{"rsa0", "rsa1", "ed3", "wrap2", "rsa0", "rsa1"} {
 		emit("rcptconc", []string{k, "8", "4", []string{"262144", "1024", "65536"}[i%3]}, "concurrent-issue/"+k[:2], true)
 	}
+	// receipts as a server issues them: the effects a handler returns are the effects of its receipt
+	ns := 120
+	if cfg.Thorough() {
+		ns = 2500
+	}
+	k := 0
+	genWorlds(cfg, ns, genOpts{maxDepth: 3, sessions: true, sessionPct: 15, kinds: []string{"none", "none", "none", "expired"}}, func(w *AWorld, class string) {
+		w.Services = []ASvc{{Can: w.Desc.Can, Result: []string{"okjoin", "okfx", "ok", "err"}[k%4]}}
+		k++
+		w.Invs = []int{w.Inv}
+		emit("serve", []string{"C10", mustJSON(w)}, "served/"+w.Services[0].Result, true)
+	})
 	return nil
 }
 
